@@ -173,7 +173,7 @@ theorem full_rows (tr tc R C : Int) (g : Geo) (zf : Int → Rat) (chans : List I
 /-- the table a reader derives for a TILED_FULL image is the table the constructor would have written with
 explicit positions and nothing omitted (whatever the z origins of the focal planes are) -/
 theorem tiledFullLut_eq (chans : List Int) (tr tc R C : Int) (hr : 1 ≤ tr) (hc : 1 ≤ tc) (hR : 1 ≤ R) (hC : 1 ≤ C) :
-    tiledFullLut (chans.map some) tr tc R C = .ok (segRows ((gridPos R C tr tc).map (fun p => (p.2, p.1))) chans 0) := by
+    tiledFullLut (chans.map some) 1 tr tc R C = .ok (segRows ((gridPos R C tr tc).map (fun p => (p.2, p.1))) chans 0) := by
   unfold tiledFullLut
   obtain ⟨zf, hz⟩ := tiledFullZOffset_total 1 0
   rw [iterTiledFull_eq_of _ _ _ _ _ _ _ _ zf hz hr hc hR hC]
@@ -189,6 +189,107 @@ theorem tiledFullLut_eq (chans : List Int) (tr tc R C : Int) (hr : 1 ≤ tr) (hc
   congr 1
   exact full_rows tr tc R C _ zf chans 0
 
+
+/-! ## General list lemmas: chunks of constant length -/
+
+theorem flatMap_const_length {β γ} (xs : List β) (f : β → List γ) (n : Nat) (h : ∀ x ∈ xs, (f x).length = n) :
+    (xs.flatMap f).length = xs.length * n := by
+  induction xs with
+  | nil => simp
+  | cons x xs ih =>
+    rw [List.flatMap_cons, List.length_append, h x (by simp), ih (fun y hy => h y (by simp [hy])), List.length_cons, Nat.succ_mul]
+    omega
+
+/-- element `a·n + b` of a concatenation of chunks of length `n` is element `b` of chunk `a` -/
+theorem flatMap_getElem_const {β γ} (f : β → List γ) (n : Nat) : ∀ (xs : List β) (a b : Nat) (x : β),
+    (∀ y ∈ xs, (f y).length = n) → b < n → xs[a]? = some x → (xs.flatMap f)[a * n + b]? = (f x)[b]? := by
+  intro xs
+  induction xs with
+  | nil => intro a b x _ _ hx; simp at hx
+  | cons y ys ih =>
+    intro a b x hlen hb hx
+    rw [List.flatMap_cons]
+    cases a with
+    | zero =>
+      simp only [List.getElem?_cons_zero, Option.some.injEq] at hx
+      subst hx
+      rw [Nat.zero_mul, Nat.zero_add, List.getElem?_append_left (by rw [hlen y (by simp)]; exact hb)]
+    | succ a =>
+      simp only [List.getElem?_cons_succ] at hx
+      have e : (a + 1) * n + b = (f y).length + (a * n + b) := by
+        rw [hlen y (by simp), Nat.succ_mul]; omega
+      rw [e, List.getElem?_append_right (by omega)]
+      have : (f y).length + (a * n + b) - (f y).length = a * n + b := by omega
+      rw [this]
+      exact ih a b x (fun z hz => hlen z (by simp [hz])) hb hx
+
+theorem iota_getElem (n : Int) (k : Nat) (hk : (k : Int) < n) : (iota n)[k]? = some (k : Int) := by
+  unfold iota
+  rw [List.getElem?_map, List.getElem?_range (by omega)]
+  rfl
+
+theorem iota_length_nat (n : Int) : (iota n).length = n.toNat := by
+  unfold iota; simp
+
+/-- first item of a chunk of `iter_tiled_full_frame_data`: the tile at (1, 1) -/
+theorem iterChunk_head (tr tc R C : Int) (g : Geo) (zf : Int → Rat) (chp : Option Int × Int) (hr : 1 ≤ tr) (hc : 1 ≤ tc) (hR : 1 ≤ R) (hC : 1 ≤ C) :
+    ∃ q, (iterChunk tr tc R C g zf chp)[0]? = some q ∧ q.2.2.1 = 1 ∧ q.2.2.2.1 = 1 := by
+  unfold iterChunk tpOf
+  rw [List.getElem?_map]
+  have h := flatMap_getElem_const (fun i => (iota (nTiles C tc)).map (fun j => ((j * tc + 1, i * tr + 1), pixToRef { g with oz := zf chp.2 } (j * tc) (i * tr))))
+    (nTiles C tc).toNat (iota (nTiles R tr)) 0 0 (0 : Int) (fun y _ => by rw [List.length_map, iota_length_nat])
+    (by have := nTiles_pos C tc hC hc; omega) (iota_getElem _ 0 (by have := nTiles_pos R tr hR hr; omega))
+  rw [Nat.zero_mul, Nat.add_zero] at h
+  rw [h, List.getElem?_map, iota_getElem _ 0 (by have := nTiles_pos C tc hC hc; omega)]
+  simp only [Option.map_some]
+  exact ⟨_, rfl, by simp, by simp⟩
+
+/-- **several focal planes**: in the table derived for a TILED_FULL image with two or more focal planes every tile position
+occurs once per plane, so a region read without a channel query fails the uniqueness test -/
+theorem tiledFullLut_planes_not_unique (ch : Option Int) (planes tr tc R C : Int) (hp : 2 ≤ planes)
+    (hr : 1 ≤ tr) (hc : 1 ≤ tc) (hR : 1 ≤ R) (hC : 1 ≤ C) :
+    ∃ lut, tiledFullLut [ch] planes tr tc R C = .ok lut ∧ uniqueKey none lut = false := by
+  unfold tiledFullLut
+  obtain ⟨zf, hz⟩ := tiledFullZOffset_total 1 0
+  rw [iterTiledFull_eq_of _ _ _ _ _ _ _ _ zf hz hr hc hR hC]
+  refine ⟨_, rfl, ?_⟩
+  rw [Bool.eq_false_iff]
+  intro hu
+  unfold uniqueKey at hu
+  simp only at hu
+  rw [uniquePos_iff, List.map_map, List.map_map, List.nodup_iff_getElem?_ne_getElem?] at hu
+  -- frames 0 and N (= first tile of planes 1 and 2) carry the same position
+  set N := (nTiles R tr).toNat * (nTiles C tc).toNat with hN
+  have hNpos : 0 < N := by
+    have := nTiles_pos R tr hR hr; have := nTiles_pos C tc hC hc
+    exact Nat.mul_pos (by omega) (by omega)
+  set chps := ([ch].flatMap (fun ch => (iota planes).map (fun p => (ch, p + 1)))) with hchps
+  have hc0 : chps[0]? = some (ch, (0 : Int) + 1) := by
+    rw [hchps]; simp only [List.flatMap_cons, List.flatMap_nil, List.append_nil]
+    rw [List.getElem?_map, iota_getElem planes 0 (by omega)]; rfl
+  have hc1 : chps[1]? = some (ch, (1 : Int) + 1) := by
+    rw [hchps]; simp only [List.flatMap_cons, List.flatMap_nil, List.append_nil]
+    rw [List.getElem?_map, iota_getElem planes 1 (by omega)]; rfl
+  have hlen : ∀ y ∈ chps, (iterChunk tr tc R C ⟨0, 0, 0, 1, 0, 0, 0, 1, 0, 1, 1⟩ zf y).length = N := by
+    intro y _
+    rw [chunk_length, List.length_map]
+    unfold gridPos
+    rw [flatMap_const_length _ _ (nTiles C tc).toNat (fun x _ => by rw [List.length_map, iota_length_nat]), iota_length_nat]
+  have e0 := flatMap_getElem_const (iterChunk tr tc R C ⟨0, 0, 0, 1, 0, 0, 0, 1, 0, 1, 1⟩ zf) N chps 0 0 _ hlen hNpos hc0
+  have e1 := flatMap_getElem_const (iterChunk tr tc R C ⟨0, 0, 0, 1, 0, 0, 0, 1, 0, 1, 1⟩ zf) N chps 1 0 _ hlen hNpos hc1
+  obtain ⟨q0, h0, a0, b0⟩ := iterChunk_head tr tc R C ⟨0, 0, 0, 1, 0, 0, 0, 1, 0, 1, 1⟩ zf (ch, (0 : Int) + 1) hr hc hR hC
+  obtain ⟨q1, h1, a1, b1⟩ := iterChunk_head tr tc R C ⟨0, 0, 0, 1, 0, 0, 0, 1, 0, 1, 1⟩ zf (ch, (1 : Int) + 1) hr hc hR hC
+  rw [h0] at e0
+  rw [h1] at e1
+  simp only [Nat.zero_mul, Nat.one_mul, Nat.add_zero] at e0 e1
+  have hNlen : N < (List.map ((key3 ∘ fun r => { rp := r.rp, cp := r.cp, fi := r.fi, ch := 0 }) ∘ fun x : (Option Int × Int × Int × Int × Rat × Rat × Rat) × Nat =>
+      ({ rp := x.1.2.2.2.1, cp := x.1.2.2.1, fi := x.2, ch := match x.1.1 with | some c => c | none => 0 } : LutRow))
+      (chps.flatMap (iterChunk tr tc R C ⟨0, 0, 0, 1, 0, 0, 0, 1, 0, 1, 1⟩ zf)).zipIdx).length := by
+    rw [List.length_map, List.length_zipIdx]
+    exact (List.getElem?_eq_some_iff.mp e1).1
+  apply hu 0 N hNpos hNlen
+  rw [List.getElem?_map, List.getElem?_map, List.getElem?_zipIdx, List.getElem?_zipIdx, e0, e1]
+  simp only [Option.map_some, Function.comp, key3, a0, b0, a1, b1]
 
 /-- with `allow_missing_combinations` the TILED_FULL flag does not influence a region read -/
 theorem readRegion_full_irrelevant {α} (z : α) (lut : List LutRow) (frames : List (Img α)) (R C th tw : Int) (chan : Option Int)
@@ -222,7 +323,7 @@ theorem tileThenRead_full_eq_sparse {α} [BEq α] (z : α) (Ms : List (Int × Im
         obtain ⟨t, ht⟩ := List.getElem?_of_mem hb
         exact k4 rfl s t k b hs ht
       have hrows := cutSegments_allTrue z R C tr tc _ Ms keep 0 rows frames hall hcs
-      have hfull : tiledFullLut (Ms.map (fun m => some m.1)) tr tc R C = .ok rows := by
+      have hfull : tiledFullLut (Ms.map (fun m => some m.1)) 1 tr tc R C = .ok rows := by
         have : Ms.map (fun m => some m.1) = (Ms.map Prod.fst).map some := by rw [List.map_map]; rfl
         rw [this, tiledFullLut_eq _ tr tc R C hr hc hR hC, hrows]
       rw [hfull]
@@ -233,7 +334,7 @@ theorem tileThenRead_full_eq_sparse {α} [BEq α] (z : α) (Ms : List (Int × Im
 /-- the table implied by frame order for a single-channel TILED_FULL image: frame `k` sits at the `k`-th position of
 the row-major grid -/
 theorem tiledFullLut_single (ch : Int) (tr tc R C : Int) (hr : 1 ≤ tr) (hc : 1 ≤ tc) (hR : 1 ≤ R) (hC : 1 ≤ C) :
-    ∃ lut, tiledFullLut [some ch] tr tc R C = .ok lut ∧ lut.map pos = gridPos R C tr tc ∧
+    ∃ lut, tiledFullLut [some ch] 1 tr tc R C = .ok lut ∧ lut.map pos = gridPos R C tr tc ∧
       ∀ r ∈ lut, (gridPos R C tr tc)[r.fi]? = some (r.rp, r.cp) := by
   refine ⟨_, tiledFullLut_eq [ch] tr tc R C hr hc hR hC, ?_, ?_⟩
   · simp only [segRows, List.append_nil, rowsOf, List.map_map]
@@ -262,7 +363,7 @@ theorem readRegion_tiled_full {α} (z : α) (M : Img α) (frames : List (Img α)
       ∃ fr, frames[k]? = some fr ∧ FrameCutFrom M R C th tw p.1 p.2 fr)
     (rs re cs ce : Option Int) (ai am : Bool) (r0 r1 c0 c1 : Int)
     (hstd : stdRowColIndices rs re cs ce R C ai false = .ok (r0, r1, c0, c1)) (hr : r0 ≤ r1) (hc : c0 ≤ c1) :
-    ∃ lut out, tiledFullLut [some ch] th tw R C = .ok lut ∧
+    ∃ lut out, tiledFullLut [some ch] 1 th tw R C = .ok lut ∧
       readRegion z lut frames R C th tw none rs re cs ce ai true am = .ok (r1 - r0, c1 - c0, out) ∧
       ∀ i j, 0 ≤ i → i < r1 - r0 → 0 ≤ j → j < c1 - c0 → out i j = M (r0 - 1 + i) (c0 - 1 + j) := by
   obtain ⟨lut, hlut, hpos, hfi⟩ := tiledFullLut_single ch th tw R C ht hw hR hC
